@@ -810,6 +810,10 @@ def large_stream(ctx, run: Runner):
         many = jc.big_triangle(slice_sizes=[1] * (2200 if ctx.quick else 4300), limit=2 ** 53)
         many2 = jc.big_triangle(slice_sizes=[1] * (2200 if ctx.quick else 4300), limit=2 ** 53, value_shift=3, fields=("rep",))
         pair("2200-slices", many, many2, ons=(None, ["per_occurrence_limit"], ["country"]), jts=["full", "inner", "left_anti"])
+        # ... and 2200 OTHER Metadata: more than 4096 distinct ones have now gone through this process
+        other = jc.big_triangle(slice_sizes=[1] * 2200, start=(2010, 1))
+        pair("2200-other-slices", other, jc.big_triangle(slice_sizes=[1] * 1100, start=(2010, 1), value_shift=1, fields=("rep",)),
+             jts=["full", "right_anti"], statics=(["rep"],), pm=False, coal=False)
         # 260 triangles holding the same coordinate: the first one wins
         singles = [jc.mk_triangle([jc.with_values(many.cells[0], {"paid": i})]) for i in range(260)]
         ctx.hist("large:coalesce-260")
